@@ -56,7 +56,8 @@ def judge(records, spec_dir, module, cfg, name, res, nshards=16, heap="1g", time
                 res.machinery(f"trace spec {module}: {m.group(2)} records rejected but {len(rj)} parsed for {p}")
         rejects.update(rj)
         if not got:
-            res.machinery(f"trace spec {module} gave no verdict for {p}:\n" + r.out[-3000:])
+            i = r.out.find("Error")
+            res.machinery(f"trace spec {module} gave no verdict for {p}:\n" + (r.out[i:i + 2500] if i >= 0 else r.out[-2500:]))
         res.add_tlc(r)
         if not keep:
             try:
